@@ -68,6 +68,9 @@ func TestMain(m *testing.M) {
 		{glue.UserField(ref.TMac), glue.UserField(ref.TOctets), glue.UserField(ref.TU8)},
 	}
 	if rp := ev.LoadReplay(); rp != nil {
+		if rp.Phase == "extra" {
+			ev.RunReplay(rp, runExtra)
+		}
 		ev.RunReplay(rp, func(c Case) *ev.Failure { f, _ := runCase(c); return f })
 	}
 	rec = ev.New("C14", "generated timings, under the race detector: (refresh) a udp application goroutine sending templates and data with generated pauses while a second goroutine runs template-refresh rounds (the ticker's body, through the verif hook) at generated moments; (ticker) the real refresh ticker at its minimum interval of 1 s during ~2.3 s of sends; (peerclose) a tcp collector-side close at a generated moment with a check interval of a few ms; (close) 1..8 goroutines calling CloseConnToCollector at generated moments while the application sends, repeated; GOMAXPROCS drawn from {2,4,16}; non-trivial = a refresh round / tick, a peer close or a Close overlapped in time with application sends; distinct by hash of the case",
@@ -711,6 +714,17 @@ func TestC14(t *testing.T) {
 			tickerFails[i], _ = runRefresh(c)
 		}(i)
 	}
+	// scenarios in the exporter's less common configurations (JSON output, TLS, DTLS, a template the
+	// library cannot rebuild) run beside the ticker cases: they mostly wait
+	extras := extraCases(rec.Thorough())
+	extraFails := make([]*ev.Failure, len(extras))
+	for i := range extras {
+		tw.Add(1)
+		go func(i int) {
+			defer tw.Done()
+			extraFails[i] = runExtra(extras[i])
+		}(i)
+	}
 	lateFails := make([]*ev.Failure, nt)
 	lateJudged := 0
 	tickOK := t.Run("ticker", func(t *testing.T) {
@@ -744,6 +758,17 @@ func TestC14(t *testing.T) {
 		rec.Case(ev.Hash([]any{c, i}), true, "kind_ticker")
 		if f != nil {
 			rec.Violation("ticker", c, f.Msg)
+			t.Errorf("%s", f.Msg)
+			return
+		}
+	}
+	for i, f := range extraFails {
+		rec.Case(ev.Hash(extras[i]), true, "kind_"+extras[i].Kind)
+		if i < 6 {
+			rec.Sample("extra", extras[i])
+		}
+		if f != nil {
+			rec.Violation("extra", extras[i], f.Msg)
 			t.Errorf("%s", f.Msg)
 			return
 		}
